@@ -151,6 +151,42 @@ pub fn bad_points() -> Bad {
     Bad { g1_offcurve: g1_off.unwrap(), g1_nosubgroup: g1_sub.unwrap(), g2_offcurve: g2_off.unwrap(), g2_nosubgroup: g2_sub.unwrap() }
 }
 
+/// a point of the curve with no component in the prime-order subgroup: T = [q]R for a curve point R outside the subgroup
+/// (the cofactor is coprime to q, so T != O and [q]T' = O only for T' in the subgroup).  Double-and-add over the bits of q
+/// with the projective formulas, which are complete on the whole curve.
+fn torsion_g1(bad: &Bad) -> bls12_381::G1Projective {
+    use bls12_381::G1Projective;
+    let r: G1Affine = Option::from(G1Affine::from_compressed_unchecked(&{ let mut a = [0u8; 48]; a.copy_from_slice(&bad.g1_nosubgroup); a })).expect("curve point");
+    let r = G1Projective::from(r);
+    let q = q_bytes();
+    let mut acc = G1Projective::identity();
+    for byte in q.iter().rev() { for bit in (0..8).rev() { acc = acc.double(); if (byte >> bit) & 1 == 1 { acc += r; } } }
+    acc
+}
+fn torsion_g2(bad: &Bad) -> bls12_381::G2Projective {
+    use bls12_381::G2Projective;
+    let r: G2Affine = Option::from(G2Affine::from_compressed_unchecked(&{ let mut a = [0u8; 96]; a.copy_from_slice(&bad.g2_nosubgroup); a })).expect("curve point");
+    let r = G2Projective::from(r);
+    let q = q_bytes();
+    let mut acc = G2Projective::identity();
+    for byte in q.iter().rev() { for bit in (0..8).rev() { acc = acc.double(); if (byte >> bit) & 1 == 1 { acc += r; } } }
+    acc
+}
+/// the element encoded in `chunk` (valid, possibly the identity) moved by +T / -T, re-encoded; None if `chunk` is not a valid element
+fn shift_by_torsion(chunk: &[u8], bad: &Bad, minus: bool) -> Option<Vec<u8>> {
+    if chunk.len() == 48 {
+        let p: G1Affine = Option::from(G1Affine::from_compressed(&{ let mut a = [0u8; 48]; a.copy_from_slice(chunk); a }))?;
+        let t = torsion_g1(bad);
+        let s = bls12_381::G1Projective::from(p) + if minus { -t } else { t };
+        Some(G1Affine::from(s).to_compressed().to_vec())
+    } else {
+        let p: G2Affine = Option::from(G2Affine::from_compressed(&{ let mut a = [0u8; 96]; a.copy_from_slice(chunk); a }))?;
+        let t = torsion_g2(bad);
+        let s = bls12_381::G2Projective::from(p) + if minus { -t } else { t };
+        Some(G2Affine::from(s).to_compressed().to_vec())
+    }
+}
+
 fn q_bytes() -> [u8; 32] {
     // q = -1 + 1 as bytes: (q - 1) little-endian, plus one
     let mut b = (-Scalar::one()).to_bytes();
@@ -362,6 +398,21 @@ pub fn run(ctx: &mut Ctx) {
                     for (o, l) in [els[x], els[y]] { for z in b2[o..o + l].iter_mut() { *z = 0; } b2[o] = 0xc0; }
                     if b2 == *bytes { continue; }
                     let _ = compare(ctx, e, &b2, &atoms, "two-elements-identity");
+                    // the same pair moved out of the prime-order subgroup by +T and -T (T a point of the curve with no
+                    // subgroup component): each encoding is invalid on its own, the sum of the two elements is unchanged -
+                    // a decoder that folds the per-element subgroup tests into one test of an aggregate accepts it
+                    if els[x].1 == els[y].1 {
+                        if let (Some(px), Some(py)) = (shift_by_torsion(&bytes[els[x].0..els[x].0 + els[x].1], &bad, false), shift_by_torsion(&bytes[els[y].0..els[y].0 + els[y].1], &bad, true)) {
+                            let mut b3 = bytes.clone();
+                            b3[els[x].0..els[x].0 + els[x].1].copy_from_slice(&px);
+                            b3[els[y].0..els[y].0 + els[y].1].copy_from_slice(&py);
+                            let (real, _, _) = compare(ctx, e, &b3, &atoms, "two-elements-outside-subgroup-cancelling");
+                            ctx.count(&format!("torsion-pair:{}", outc_tokens(&real).split(' ').next().unwrap()));
+                            if let Outc::Ok { .. } = real {
+                                ctx.violation(&format!("{} decodes although two of its elements lie outside the prime-order subgroup (they differ from valid ones by +T and -T)", name), json!({"class": "decode-accepts-elements-outside-subgroup", "type": name, "bytes": hex::encode(&b3)}));
+                            }
+                        }
+                    }
                 }
             }
         }
@@ -490,6 +541,8 @@ fn channel_id_text_case(ctx: &mut Ctx, idx: usize, robust: bool) {
         if text != base64::encode(b) {
             ctx.violation("a channel id does not print as the standard base64 of its 32 bytes", json!({"class": "channel-id-text-not-base64", "id": hex::encode(b), "text": text}));
         }
+        // the Lean model of the text form (Model/Base64.lean, theorems C15.id_text_*)
+        let _ = ctx.expect(&format!("b64-text-of-id {}", hex::encode(b)), &[crate::report::Real::V(hex::encode(text.as_bytes()))]);
         match std::panic::catch_unwind(|| ChannelId::from_str(&text)) {
             Ok(Ok(back)) if back.to_bytes() == *b => ctx.count("channel-id-text:roundtrip"),
             Ok(Ok(_)) => ctx.violation("a channel id's text parses to a different id", json!({"class": "channel-id-text-roundtrip", "id": hex::encode(b), "text": text})),
@@ -539,6 +592,10 @@ fn channel_id_text_case(ctx: &mut Ctx, idx: usize, robust: bool) {
             }
             Ok(r) => {
                 ctx.count(&format!("channel-id-text:{}", if r.is_ok() { "parsed" } else { "error" }));
+                // the model's verdict and value
+                let arg = if text.is_empty() { "-".to_string() } else { hex::encode(text.as_bytes()) };
+                let reals = match &r { Ok(id) => vec![crate::report::Real::V("some".into()), crate::report::Real::V(hex::encode(id))], Err(_) => vec![crate::report::Real::V("none".into())] };
+                let _ = ctx.expect(&format!("b64-id-of-text {}", arg), &reals);
                 if r.as_ref().ok() != oracle.as_ref() {
                     ctx.violation(&format!("parsing a channel id from text ({}) {} although the text {} base64 of 32 bytes", what, if r.is_ok() { "succeeds" } else { "fails" }, if oracle.is_some() { "is" } else { "is not" }),
                         json!({"class": "channel-id-text-acceptance", "input": what, "text": shown}));
